@@ -35,6 +35,8 @@ func main() {
 		os.Exit(cmdRebaseline(os.Args[2:]))
 	case "replay":
 		os.Exit(cmdReplay(os.Args[2:]))
+	case "selftest":
+		os.Exit(cmdSelftest(os.Args[2:]))
 	default:
 		usage()
 	}
@@ -107,6 +109,7 @@ type flags struct {
 	seed                        int
 	keep                        bool
 	verbose                     bool
+	onlyTouched                 bool
 	jobs                        int
 }
 
@@ -121,6 +124,7 @@ func parseFlags(args []string) *flags {
 	fs.IntVar(&f.seed, "seed", 0, "seed")
 	fs.BoolVar(&f.keep, "keep", false, "keep SMT scripts")
 	fs.BoolVar(&f.verbose, "v", false, "verbose")
+	fs.BoolVar(&f.onlyTouched, "touched", true, "selftest: re-verify only functions that depend on the patched files (modular verification)")
 	fs.IntVar(&f.jobs, "j", 10, "parallel obligations")
 	fs.Parse(args)
 	if s := os.Getenv("VERIF_SEED"); s != "" && f.seed == 0 {
@@ -141,6 +145,48 @@ type propWork struct {
 	engineErrs []string
 	db      *ContractDB
 	ld      *Loader
+}
+
+// touchesFiles: fn is defined in one of the files, or inlines (transitively) a contract-less function
+// defined in one of them.
+func touchesFiles(ld *Loader, db *ContractDB, fn *ssa.Function, files map[string]bool, seen map[*ssa.Function]bool, depth int) bool {
+	if fn == nil || seen[fn] || depth > 8 {
+		return false
+	}
+	seen[fn] = true
+	if fn.Pos().IsValid() && files[ld.prog.Fset.Position(fn.Pos()).Filename] {
+		return true
+	}
+	for _, af := range fn.AnonFuncs {
+		if touchesFiles(ld, db, af, files, seen, depth+1) {
+			return true
+		}
+	}
+	for _, b := range fn.Blocks {
+		for _, ins := range b.Instrs {
+			var cc *ssa.CallCommon
+			switch c := ins.(type) {
+			case *ssa.Call:
+				cc = &c.Call
+			case *ssa.Defer:
+				cc = &c.Call
+			}
+			if cc == nil {
+				continue
+			}
+			callee := cc.StaticCallee()
+			if callee == nil || callee.Blocks == nil {
+				continue
+			}
+			if con := db.Funcs[relKey(callee)]; con != nil && !con.Inline {
+				continue
+			}
+			if touchesFiles(ld, db, callee, files, seen, depth+1) {
+				return true
+			}
+		}
+	}
+	return false
 }
 
 func collect(f *flags, overlay map[string][]byte) (*propWork, error) {
@@ -193,10 +239,20 @@ func collect(f *flags, overlay map[string][]byte) (*propWork, error) {
 		return nil, err
 	}
 	w.ld = ld
+	var onlyFiles map[string]bool
+	if f.onlyTouched && overlay != nil {
+		onlyFiles = map[string]bool{}
+		for p := range overlay {
+			onlyFiles[p] = true
+		}
+	}
 	for _, k := range keys {
 		fn := ld.funcs[k]
 		if fn == nil {
 			w.engineErrs = append(w.engineErrs, fmt.Sprintf("contract names a function that does not exist: %s", k))
+			continue
+		}
+		if onlyFiles != nil && !touchesFiles(ld, db, fn, onlyFiles, map[*ssa.Function]bool{}, 0) {
 			continue
 		}
 		x, err := VerifyFunction(ld, db, fn, db.Funcs[k])
@@ -214,6 +270,9 @@ func collect(f *flags, overlay map[string][]byte) (*propWork, error) {
 		}
 	}
 	for _, l := range lemmas {
+		if onlyFiles != nil {
+			continue // lemmas do not depend on code
+		}
 		x, err := VerifyLemma(ld, db, lemmaPkg(f.repo, l), l)
 		if err != nil {
 			w.engineErrs = append(w.engineErrs, fmt.Sprintf("lemma %s: %v", l.Name, err))
